@@ -14,6 +14,7 @@ import time
 import traceback
 
 sys.path.insert(0, os.path.dirname(os.path.abspath(__file__)))
+sys.path.insert(0, os.path.join(os.path.dirname(os.path.abspath(__file__)), "props"))
 import vlib  # noqa: E402
 from vlib import log  # noqa: E402
 
